@@ -32,11 +32,12 @@ func F(a int, b bool, u uint) int {
 	return 0
 }
 
-func G(b bool) bool {
-	if b {
-		return true
+func G(xs []int) int {
+	n := 0
+	for i, _ := range xs {
+		n += i
 	}
-	return false
+	return n
 }
 
 func H(x int) int {
